@@ -1416,6 +1416,10 @@ func (g *Gen) genQueries(midBlock bool) bool {
 			if nw > 1 {
 				lims = append(lims, nw-1, nw, nw+1)
 			}
+			if g.R.Chance(0.1) {
+				// "no limit" as clients say it, and page sizes around 2^63
+				lims = []uint64{1<<64 - 1, 1 << 63, 1<<63 - 1, 1<<64 - 2}
+			}
 			qs.Limit = Pick(g.R, lims)
 			qs.CountTotal = g.R.Chance(0.5)
 			qs.Reverse = g.R.Chance(0.3)
